@@ -64,7 +64,7 @@ func main() {
 		os.Exit(runTranslate(*translate))
 	}
 	if *genvec != "" {
-		if strings.HasSuffix(*genvec, "format2.json") {
+		if strings.HasSuffix(*genvec, "format2.json") || strings.HasSuffix(*genvec, "format3.json") {
 			writeVectors2(*genvec, 20260930)
 			return
 		}
